@@ -5,6 +5,8 @@ of the installed back ends decides it, so the level is 'exploration' (bounded). 
 word problem: Tits' theorem (two reduced words represent the same element iff they are related by braid moves; a word is
 non-reduced iff braid moves bring two equal letters together)."""
 import itertools
+import os
+import time
 import numpy as np
 from vf.api import bounded
 from geometry_tools import coxeter
@@ -166,7 +168,12 @@ def rank4_and_rank5(tier, rng, rep):
     for t in range(N5):
         cases.append((f"rand5_{t}", [int(x) for x in rng.choice([2, 2, 2, 3, 3, 4, 0], size=10)], 5))
     rep.bound = f"{len(cases)} matrices"
-    for nm, lab, rank in cases:
+    t_start = time.time()
+    t_max = 0.6 * float(os.environ.get("VF_OB_BUDGET", "900" if tier == 'thorough' else "150"))
+    for done, (nm, lab, rank) in enumerate(cases):
+        if time.time() - t_start > t_max:       # some random rank-5 groups have very large small-root automata
+            rep.bound = f"{done} of {len(cases)} matrices (stopped at 60% of the per-obligation time budget)"
+            break
         pairs = list(itertools.combinations(range(rank), 2))
         M = [[1] * rank for _ in range(rank)]
         for (i, j), l in zip(pairs, lab):
